@@ -142,22 +142,21 @@ pub fn corpus() -> Vec<(String, String)> {
 }
 
 
-/// Confirmed front-end crashes (DESIGN §7 fix rows): (id, fix still pending, probe text).  Each check runs
-/// the probes first, in a child process.
-/// * pending = true: while the probe still crashes, crashes at the site it reports are attributed to that
-///   defect, counted, and named in a note instead of being reported one by one; once it stops crashing it
-///   gates nothing and the shape is part of the main stream like any other.
-/// * pending = false (the fix has landed): the probe is a regression input — if it crashes again that is a
-///   failing input of the property.
-pub const GATES: [(&str, bool, &str); 8] = [
-    ("D64", true, "let a: array<> = [1]\n"),
-    ("D65", true, "type Pt = { x: int }\nPt\nprintln(1)\n"),
-    ("D66", true, "interface Sp {\n  fn say(self: Self) -> string\n}\nimplement Sp for R {\n  fn say(self) -> string = \"beep\"\n}\nlet s = Sp.say(1)\n"),
-    ("D57", false, "interface Sp {\n  fn say(self: Self) -> string\n}\nlet s = Sp.say(1)\n"),
-    ("D53", false, "fn f() { f }\n"),
-    ("D54", false, "implement ToString for Persn {\n  fn str(self) { \"P\" }\n}\n"),
-    ("D55", false, "fn g(a = 1!) {}\n"),
-    ("D56", false, "\ntype MyStatus =\n    | NotGood\n    | ReallyBad\n    | Terrible\n    | Good\n    | PrettyGood\n    | PrettyPrettyPrettyGood\n\nimplement Try for MyStatus {\n    fn branch(self) -> ControlFlow<MyStatus, MyStatus> {\n        mr atch self {\n            .NotGood -> .Break(self)\n            .ReallyBad -> .Break(self)\n            .Terrible -> .Break(self)\n            .Good -> .Continue(self)\n            .PrettyGood -> .Continue(self)\n            .PrettyPrettyPrettyGood -> .Continue(self)\n        }\n    }\n\n    fn from_residual(r: MyStatus) -> MyStatus {\n        r\n    }\n}\n\nfn test_early_exit() -> MyStatus {\n  MyStatus.Good?\n  MyStatus.PrettyGood?\n  MyStatus.PrettyPrettyPrettyGood?\n\n  // early exit happens here!\n  MyStatus.ReallyBad?\n\n  // return good status if we made it to the end (which we don't)\n  MyStatus.Good\n}\n\nmatch test_early_exit() {\n  MyStatus.ReallyBad -> 10,\n  _ -> panic(\"did not work\"),\n}\n"),
+/// Confirmed front-end crashes whose fixes have all landed (DESIGN §7 fix rows): (id, probe text).  Every
+/// check runs them first, in a child process, as hard regression inputs: a crash is a failing input of the
+/// property, reported with the probe's source.  Nothing is gated.
+pub const GATES: [(&str, &str); 11] = [
+    ("D45", "let q = 1\ntask {\n  println(q)\n  let r = q + 1\n  r.\n}\n"),
+    ("D60", "// a comment line to push offsets up\nfn f(a: string) -> int {\n  let x = 1\n}\nlet q = f(\"s\")\n"),
+    ("D53b", "fn count(n) { (n, count(n - 1)) }\n"),
+    ("D64", "let a: array<> = [1]\n"),
+    ("D65", "type Pt = { x: int }\nPt\nprintln(1)\n"),
+    ("D66", "interface Sp {\n  fn say(self: Self) -> string\n}\nimplement Sp for R {\n  fn say(self) -> string = \"beep\"\n}\nlet s = Sp.say(1)\n"),
+    ("D57", "interface Sp {\n  fn say(self: Self) -> string\n}\nlet s = Sp.say(1)\n"),
+    ("D53", "fn f() { f }\n"),
+    ("D54", "implement ToString for Persn {\n  fn str(self) { \"P\" }\n}\n"),
+    ("D55", "fn g(a = 1!) {}\n"),
+    ("D56", "\ntype MyStatus =\n    | NotGood\n    | ReallyBad\n    | Terrible\n    | Good\n    | PrettyGood\n    | PrettyPrettyPrettyGood\n\nimplement Try for MyStatus {\n    fn branch(self) -> ControlFlow<MyStatus, MyStatus> {\n        mr atch self {\n            .NotGood -> .Break(self)\n            .ReallyBad -> .Break(self)\n            .Terrible -> .Break(self)\n            .Good -> .Continue(self)\n            .PrettyGood -> .Continue(self)\n            .PrettyPrettyPrettyGood -> .Continue(self)\n        }\n    }\n\n    fn from_residual(r: MyStatus) -> MyStatus {\n        r\n    }\n}\n\nfn test_early_exit() -> MyStatus {\n  MyStatus.Good?\n  MyStatus.PrettyGood?\n  MyStatus.PrettyPrettyPrettyGood?\n\n  // early exit happens here!\n  MyStatus.ReallyBad?\n\n  // return good status if we made it to the end (which we don't)\n  MyStatus.Good\n}\n\nmatch test_early_exit() {\n  MyStatus.ReallyBad -> 10,\n  _ -> panic(\"did not work\"),\n}\n"),
 ];
 
 /// D53's shape: some `fn <name>` whose name occurs again later as a whole word
@@ -175,6 +174,121 @@ pub fn self_referential_fn(text: &str) -> bool {
         }
     }
     false
+}
+
+
+/// INFINITE-TYPE family: self-referential definitions through every type constructor.  Each text must get
+/// diagnostics or compile; none may take the process down.
+pub fn infinite_type_texts() -> Vec<(String, String)> {
+    let ctxs: Vec<(&str, Box<dyn Fn(&str) -> String>)> = vec![
+        ("tuple", Box::new(|x| format!("(n, {x})"))),
+        ("tuple-first", Box::new(|x| format!("({x}, 1)"))),
+        ("array", Box::new(|x| format!("[{x}]"))),
+        ("some", Box::new(|x| format!("option.some({x})"))),
+        ("dot-some", Box::new(|x| format!(".some({x})"))),
+        ("ok", Box::new(|x| format!("result.ok({x})"))),
+        ("struct", Box::new(|x| format!("Bx({x})"))),
+        ("struct2", Box::new(|x| format!("Pr(n, {x})"))),
+        ("lambda", Box::new(|x| format!("() -> {x}"))),
+        ("lambda-arg", Box::new(|x| format!("(k) -> ({x}, k)"))),
+        ("call-arg", Box::new(|x| format!("id({x})"))),
+        ("call-arg-tuple", Box::new(|x| format!("id((n, {x}))"))),
+        ("array-of-tuple", Box::new(|x| format!("[(n, {x})]"))),
+        ("tuple-of-array", Box::new(|x| format!("(n, [{x}])"))),
+        ("some-of-tuple", Box::new(|x| format!("option.some((n, {x}))"))),
+        ("lambda-of-tuple", Box::new(|x| format!("() -> (n, {x})"))),
+        ("tuple-of-tuple", Box::new(|x| format!("(n, (n, {x}))"))),
+        ("struct-of-tuple", Box::new(|x| format!("Bx((n, {x}))"))),
+        ("if", Box::new(|x| format!("if n == 0 {{ (0, 0) }} else {{ (n, {x}) }}"))),
+        ("match", Box::new(|x| format!("match n {{\n    0 -> (0, 0)\n    _ -> (n, {x})\n  }}"))),
+    ];
+    let pre = "type Bx<T> = { v: T }\ntype Pr<A, B> = { a: A, b: B }\nfn id(x) { x }\n";
+    let mut v: Vec<(String, String)> = vec![];
+    for (name, c) in &ctxs {
+        for (tail_name, tail) in [("", ""), ("+use", "let r = f(3)\nprintln(1)\n")] {
+            // fn f(n) { C[f(n - 1)] }
+            v.push((format!("inftype:{name}:rec{tail_name}"), format!("{pre}fn f(n) {{\n  {}\n}}\n{tail}", c("f(n - 1)"))));
+            v.push((format!("inftype:{name}:rec-annotated{tail_name}"), format!("{pre}fn f(n: int) {{\n  {}\n}}\n{tail}", c("f(n - 1)"))));
+            // fn f() { C[f] }
+            v.push((format!("inftype:{name}:self{tail_name}"), format!("{pre}fn f(n) {{\n  {}\n}}\n{tail}", c("f"))));
+            // mutual recursion
+            v.push((format!("inftype:{name}:mutual{tail_name}"), format!("{pre}fn f(n) {{\n  {}\n}}\nfn g(n) {{\n  f(n - 1)\n}}\n{tail}", c("g(n)"))));
+            v.push((format!("inftype:{name}:mutual2{tail_name}"), format!("{pre}fn g(n) {{\n  {}\n}}\nfn f(n) {{\n  {}\n}}\n{tail}", c("f(n)"), c("g(n - 1)"))));
+        }
+        // lambda forms
+        v.push((format!("inftype:{name}:lambda-let"), format!("{pre}let n = 1\nlet g = (n) -> {}\n", c("g(n)"))));
+        v.push((format!("inftype:{name}:lambda-in-fn"), format!("{pre}fn h(n) {{\n  let g = (m) -> {}\n  g\n}}\n", c("h(n)"))));
+        v.push((format!("inftype:{name}:var-assign"), format!("{pre}fn f(n) {{\n  var acc = f(n)\n  acc = {}\n  acc\n}}\n", c("acc"))));
+    }
+    // destructuring
+    for (k, body) in [
+        "let (a, rest) = f(n - 1)\n  (n, rest)",
+        "let (a, rest) = f(n - 1)\n  (n, (a, rest))",
+        "let (a, rest) = f(n - 1)\n  [rest]",
+        "let (a, (b, rest)) = f(n - 1)\n  (a, rest)",
+        "let Bx(inner) = f(n)\n  Bx((n, inner))",
+        "for x in f(n) {\n    println(x)\n  }\n  [(n, f(n))]",
+        "match f(n) {\n    (a, rest) -> (n, (a, rest))\n  }",
+    ]
+    .iter()
+    .enumerate()
+    {
+        v.push((format!("inftype:destructure{k}"), format!("{pre}fn f(n) {{\n  {body}\n}}\n")));
+        v.push((format!("inftype:destructure{k}+use"), format!("{pre}fn f(n) {{\n  {body}\n}}\nlet r = f(2)\n")));
+    }
+    v
+}
+
+/// TYPE-ARGUMENT ARITY family: every generic type name with 0 / too few / exact / too many type arguments
+/// (`name`, `name<>`, `name<int>` …) in let annotations, parameters, return types, struct fields and variant
+/// fields (the type also declared BELOW its use), each followed by a literal / constructor of that type
+/// checked against the annotation; plus the prefix that ends right after the annotation.
+pub fn arity_texts() -> Vec<(String, String)> {
+    // (name, arity, declaration needed, literals of that type)
+    let gens: [(&str, usize, &str, &[&str]); 7] = [
+        ("array", 1, "", &["[1, 2]", "[]", "[[1]]"]),
+        ("option", 1, "", &[".some(1)", "option.some(1)", ".none"]),
+        ("result", 2, "", &[".ok(1)", "result.err(\"e\")"]),
+        ("channel", 1, "", &["channel()"]),
+        ("Bx", 1, "type Bx<T> = { v: T }\n", &["Bx(1)", "Bx([1])"]),
+        ("Pr", 2, "type Pr<A, B> = { a: A, b: B }\n", &["Pr(1, 2)"]),
+        ("Tr", 1, "type Tr<T> = Leaf | Node(T)\n", &[".Node(1)", "Tr.Leaf"]),
+    ];
+    let mut v: Vec<(String, String)> = vec![];
+    for (name, arity, decl, lits) in gens {
+        let mut spellings: Vec<(String, String)> = vec![("bare".into(), name.to_string()), ("empty".into(), format!("{name}<>"))];
+        for k in 1..=arity + 1 {
+            let args = vec!["int"; k].join(", ");
+            spellings.push((format!("{k}of{arity}"), format!("{name}<{args}>")));
+        }
+        spellings.push(("nested-bare".into(), format!("{name}<{name}>")));
+        spellings.push(("nested-empty".into(), format!("array<{name}<>>")));
+        for (sn, t) in &spellings {
+            for (li, lit) in lits.iter().enumerate() {
+                let forms: Vec<(&str, String)> = vec![
+                    ("let", format!("{decl}let a: {t} = {lit}\nprintln(1)\n")),
+                    ("param", format!("{decl}fn p(a: {t}) -> int {{ 1 }}\nlet r = p({lit})\n")),
+                    ("ret", format!("{decl}fn q() -> {t} {{ {lit} }}\nlet r = q()\n")),
+                    ("field", format!("{decl}type Bk = {{ items: {t} }}\nlet b = Bk({lit})\n")),
+                    ("field-below", format!("{decl}let b = Bk({lit})\ntype Bk = {{ items: {t} }}\n")),
+                    ("variant", format!("{decl}type Vk = Has({t}) | Non\nlet w = Vk.Has({lit})\n")),
+                    ("variant-below", format!("{decl}let w = Vk.Has({lit})\ntype Vk = Has({t}) | Non\n")),
+                    ("decl-below", format!("let a: {t} = {lit}\n{decl}")),
+                    ("lambda-param", format!("{decl}let lam = (a: {t}) -> 1\nlet r = lam({lit})\n")),
+                ];
+                for (fname, text) in forms {
+                    if li == 0 {
+                        // the prefix that ends right after the annotation
+                        if let Some(p) = text.find(t.as_str()) {
+                            v.push((format!("arity:{name}:{sn}:{fname}:prefix"), text[..p + t.len()].to_string()));
+                        }
+                    }
+                    v.push((format!("arity:{name}:{sn}:{fname}"), text));
+                }
+            }
+        }
+    }
+    v
 }
 
 /// crude token boundaries, independent of the real lexer: runs of word characters, single other characters
